@@ -318,10 +318,10 @@ Proof. split; [exact copy_into_open_stream_broke_it_before_d3967a5 | exact simpl
 Print Assumptions api_copy_into_open_stream_broke_it_before_fix.
 
 (* 41. stable input buffer (ZSTD_c_stableInBuffer = 1; deferred frame start, since 0548f83): for EVERY block size and EVERY sequence
-   of ZSTD_compressStream2 calls - any buffers, sizes, positions, directives, respected contract or not - from a new session, every
+   of ZSTD_compressStream2 calls and ZSTD_CCtx_reset(session_only) - any buffers, sizes, positions, directives, respected contract or not - from a new session, every
    ACCEPTED call hands the block compressor only bytes inside the buffer that very call was given (zstd.h: "ALWAYS memory safe"):
    the frame is a function of bytes the caller passed *)
-Theorem stable_input_reads_only_the_callers_buffer : forall bs cs, 0 < bs -> StableInProofs.all_in_bounds bs StableIn.s_fresh cs.
+Theorem stable_input_reads_only_the_callers_buffer : forall bs os, 0 < bs -> StableInProofs.all_in_bounds bs StableIn.s_fresh os.
 Proof. exact StableInProofs.stable_input_reads_in_bounds. Qed.
 Print Assumptions stable_input_reads_only_the_callers_buffer.
 
@@ -340,6 +340,13 @@ Proof.
   - vm_compute. reflexivity.
   - vm_compute. reflexivity.
 Qed.
+
+(* 42b. ZSTD_CCtx_reset(session_only) in the middle of a deferred start forgets the deferred bytes (177647f): whatever the state,
+   the next call is accepted with ANY buffer and reads nothing in front of its own position *)
+Theorem stable_input_reset_forgets_deferred_input : forall bs s c, 0 < bs -> 0 <= StableIn.c_pos c <= StableIn.c_size c ->
+  exists lo hi, snd (StableIn.step bs (StableIn.sreset s) c) = StableIn.Read lo hi /\ (lo = hi \/ StableIn.c_src c + StableIn.c_pos c <= lo).
+Proof. exact StableInProofs.reset_forgets_deferred_input. Qed.
+Print Assumptions stable_input_reset_forgets_deferred_input.
 
 (* 43. before 0548f83 (finding stablein-deferral-end-skips-stability-check): the call that ends the deferral was accepted with
    another buffer, and the 1000 bytes in front of it were compressed; the repaired code refuses it and accepts the honest call *)
